@@ -390,8 +390,8 @@ def mon_c13(s, v):
 
 
 # ---------------------------------------------------------------- C15
-ERR = {"packet_too_large": 104, "qos_not_supported": 108, "retain_not_available": 109, "topic_alias_maximum_reached": 110,
-       "wildcard_subscription_not_available": 111, "subscription_identifier_not_available": 112, "shared_subscription_not_available": 113}
+ERR = {"packet_too_large": 101, "qos_not_supported": 105, "retain_not_available": 106, "topic_alias_maximum_reached": 107,
+       "wildcard_subscription_not_available": 108, "subscription_identifier_not_available": 109, "shared_subscription_not_available": 110}
 
 
 def cap(cp, pid, default):
